@@ -494,8 +494,8 @@ fn runtime_case(
 }
 
 pub fn run(tier: Tier, seed: u64) -> MonOut {
-    let n = tier.n(600, 30_000);
-    let n_timed = tier.n(160, 3_000);
+    let n = tier.n(8_000, 300_000);
+    let n_timed = tier.n(640, 12_000);
     let mut rep = par_cases(seed, n, |_i, rng, rep| case(tier, rng, rep, false));
     let r2 = par_cases(seed ^ 0x10, n_timed, |_i, rng, rep| case(tier, rng, rep, true));
     rep.merge(r2);
